@@ -50,6 +50,15 @@ inductive Verb where
   | loadState (k : Nat)
   /-- LoadState of a missing file: immediate failure -/
   | loadMissing
+  /-- LoadState of a file the reader gives up on (unparsable entry): the entries
+      read so far were scattered, then the client is told the failure and the
+      task is cancelled (`cancel_task`); its id is spent and its in-flight ids
+      stay behind without a task (answers to them are dropped as for any
+      unknown id, which is all the model keeps of them) -/
+  | loadCorrupt
+  /-- ReloadConfiguration of a readable file generating `k` messages:
+      LoadStaticConfigTask, `Timeout::None`, request indices `0 … k-1` -/
+  | reload (k : Nat)
   /-- answered by the main process alone (ListWorkers, ListListeners, …) -/
   | localOk
   /-- `request_type: None`, LaunchWorker, ReturnListenSockets: no answer at all -/
@@ -60,6 +69,18 @@ deriving DecidableEq, Repr
 inductive ClientVerb where
   | add | bad | query | status | metrics | hardStop | softStop
   | load (k : Nat) | loadMissing | list
+  /-- LoadState of a file with an unparsable entry -/
+  | loadCorrupt
+  /-- ReloadConfiguration of a readable configuration generating `k` messages -/
+  | reload (k : Nat)
+  /-- ReloadConfiguration of a path that cannot be loaded -/
+  | reloadBad
+  /-- SetMaxConnectionsPerIp / ConfigureMetrics: `worker_request` like any mutating verb -/
+  | workerOther
+  /-- SetMetricDetail: own task, verdict always Ok ("completed with worker errors") -/
+  | metricDetail
+  /-- SetMetricDetail refused by the main process's pre-validation -/
+  | metricDetailBad
   /-- `request_type: None` -/
   | none
   | launchWorker | returnListenSockets
@@ -69,7 +90,14 @@ deriving DecidableEq, Repr
     requests the main process does not implement are answered with a failure
     (`Consts.hubAnswersUnsupportedVerbs`; before the repair: never answered, F21) -/
 def ClientVerb.classify (answers : Bool) : ClientVerb → Verb
-  | .add => .worker
+  | .add | .workerOther => .worker
+  | .metricDetail => .query
+  | .metricDetailBad => .workerBad
+  | .loadCorrupt => .loadCorrupt
+  | .reload k => .reload k
+  -- the handler panics (`unwrap_or_else(|_| panic!(…))`): the driver ends the
+  -- main process there; as a verb it is never answered
+  | .reloadBad => .noAnswer
   | .bad => .workerBad
   | .query | .status | .metrics => .query
   | .hardStop => .hardStop
@@ -78,6 +106,22 @@ def ClientVerb.classify (answers : Bool) : ClientVerb → Verb
   | .loadMissing => .loadMissing
   | .list => .localOk
   | .none | .launchWorker | .returnListenSockets => if answers then .workerBad else .noAnswer
+
+/-- the request loads a client-supplied path with `unwrap_or_else(panic!)`: the main process dies -/
+def ClientVerb.crashesMain : ClientVerb → Bool
+  | .reloadBad => true
+  | _ => false
+
+/-- `command_allowed_uids`: a client whose uid is not listed is refused before any dispatch -/
+def ClientVerb.classifyFor (allowed answers : Bool) (cv : ClientVerb) : Verb :=
+  if allowed then cv.classify answers
+  else match cv with
+    | .none => cv.classify answers   -- the empty request is handled before the uid check
+    | _ => .workerBad
+
+/-- `ClientSession::ready`: of the requests read from the socket in one go, only the
+    LAST is handed to `handle_client_request` ("more than one request at a time") -/
+def sessionPick {α : Type} (batch : List α) : Option α := batch.getLast?
 
 /-- a worker-request id `"{verb}-{worker}-{task}-{sub}"` -/
 structure Rid where
@@ -189,12 +233,17 @@ deriving DecidableEq, Repr
 
 /-- verbs that create a gathering task -/
 def Verb.gathers : Verb → Bool
-  | .worker | .query | .hardStop | .softStop | .loadState _ => true
+  | .worker | .query | .hardStop | .softStop | .loadState _ | .reload _ => true
   | _ => false
 
 /-- `Timeout::Default` verbs -/
 def Verb.hasDeadline : Verb → Bool
   | .worker | .query | .hardStop => true
+  | _ => false
+
+/-- verbs whose verdict is a failure as soon as one worker failure was counted -/
+def Verb.judgesWorkers : Verb → Bool
+  | .worker | .loadState _ | .reload _ => true
   | _ => false
 
 def Verb.isStop : Verb → Bool
@@ -203,13 +252,14 @@ def Verb.isStop : Verb → Bool
 
 /-- answered at once by the main process -/
 def Verb.immediate : Verb → Option St
-  | .workerBad | .loadMissing => some .failure
+  | .workerBad | .loadMissing | .loadCorrupt => some .failure
   | .localOk => some .ok
   | _ => none
 
 /-- number of `scatter_on` calls and the first request index -/
 def Verb.subs : Verb → List Nat
   | .loadState k => (List.range k).map (· + 1)
+  | .reload k => List.range k
   | _ => [0]
 
 /-- `load_state` reads the file through a fixed-size buffer; every fill yields a
@@ -259,11 +309,21 @@ def noticesFor (v : Verb) : Nat :=
   | .loadState _ => 2
   | _ => 1
 
+/-- processing notices sent before an immediate verdict ("Parsing state file…") -/
+def Verb.preNotices : Verb → Nat
+  | .loadCorrupt => 1
+  | _ => 0
+
+/-- `new_task` was called although no task survives the handler -/
+def Verb.spendsTaskId : Verb → Bool
+  | .loadCorrupt => true
+  | _ => false
+
 /-- what `handle_client_request` queues for the client right away -/
 def requestEmits (h : Hub) (c : Nat) (v : Verb) : List Emit :=
   if v.gathers then List.replicate (noticesFor v) (mkEmit h h.nextReq c .processing none)
   else match v.immediate with
-    | some st => [mkEmit h h.nextReq c st none]
+    | some st => List.replicate v.preNotices (mkEmit h h.nextReq c .processing none) ++ [mkEmit h h.nextReq c st none]
     | none => []
 
 /-- `handle_client_request` -/
@@ -271,7 +331,7 @@ def request (h : Hub) (c : Nat) (v : Verb) : Hub :=
   if h.run = .exited then h else
   { h with nextReq := h.nextReq + 1,
            known := if h.known.contains c then h.known else h.known ++ [c],
-           nextTask := if v.gathers then h.nextTask + 1 else h.nextTask,
+           nextTask := if v.gathers then h.nextTask + 1 else if v.spendsTaskId then h.nextTask + 1 else h.nextTask,
            tasks := if v.gathers then h.tasks ++ [newTask h c v] else h.tasks,
            inflight := if v.gathers then (newTask h c v).sent.map (fun r => (r, h.nextTask)) ++ h.inflight
                        else h.inflight,
@@ -346,6 +406,7 @@ def verdicts (stopExcl : Bool) (t : Task) (passed : Bool) : List St :=
   | .worker => [if t.errors > 0 || passed then .failure else .ok]
   | .query => [.ok]
   | .loadState _ => [if t.errors = 0 then .ok else .failure]
+  | .reload _ => [if t.errors = 0 then .ok else .failure]
   | .hardStop => if passed then (if stopExcl then [.failure] else [.failure, .ok]) else [.ok]
   | .softStop => [.ok]
   | _ => []
